@@ -24,6 +24,13 @@ def walk(focus, q, t, steps=80, **kw):
 
 PLANS = {}
 
+def mcrec(family, maxlen, utf8, p, **kw):
+    d = {"module": "MCRec", "model": "rec-%s-%s" % (family, "u" if utf8 else "e"), "kind": "rec", "view": "View",
+         "constants": {"MaxLen": maxlen, "Utf8Mode": "TRUE" if utf8 else "FALSE", "Family": '"%s"' % family},
+         "invariants": ["Agrees", "GroundClean", "ResetWord", "Complete", "Emit"], "ports": p}
+    d.update(kw)
+    return d
+
 def mcseq(model, maxseq, p, **kw):
     d = {"module": "MCSeq", "model": model, "kind": "seq", "constants": {"Model": '"%s"' % model, "MaxSeq": maxseq},
          "invariants": ["StepsHold", "NoReappear", "RisForgets", "Emit"], "ports": p, "workers": 10}
@@ -128,7 +135,10 @@ PLANS["C18"] = {
 }
 PLANS["C20"] = {
     "props": ["C20"], "ops": ["so", "si", "charset", "draw"],
-    "mc": [mc("C20", geoms("GTiny", "GTiny"), ports(API, {"api": 1}))],
+    "mc": [mc("C20", geoms("GTiny", "GTiny"), ports(API, {"api": 1})),
+           mcrec("graph", {"quick": 4, "thorough": 5}, True, ports({"chars": 1, "bytes": 3}, {"chars": 1, "chars1": 2, "bytes": 2})),
+           mcrec("graph", {"quick": 4, "thorough": 5}, False, ports({"chars": 1, "bytes": 3}, {"chars": 1, "chars1": 2, "bytes": 2})),
+           mcrec("pairs", 1, False, ports({"chars": 1}, {"chars": 1, "bytes": 1}))],
     "gen": [walk("C20", 120, 3000), walk("C20", 120, 3000, port="chars", utf8=0), walk("C20", 60, 1500, port="chars"),
             walk("C20", 60, 1500, port="bytes", utf8=0)],
     "rule": "MC: all 256 code points (+ three above 255) x 4 tables x {G0,G1} x {SI, SO, SO;SI} drawn one at a time, every designator "
@@ -192,13 +202,6 @@ PLANS["C01"] = {
     "rule": "every call runs under catch_unwind (a panic is a trace event no specification action explains); the harness process runs "
             "under a watchdog, its death or timeout is attributed to the last begun history; each soup run ends with CAN BEL BEL + probe",
 }
-def mcrec(family, maxlen, utf8, p, **kw):
-    d = {"module": "MCRec", "model": "rec-%s-%s" % (family, "u" if utf8 else "e"), "kind": "rec", "view": "View",
-         "constants": {"MaxLen": maxlen, "Utf8Mode": "TRUE" if utf8 else "FALSE", "Family": '"%s"' % family},
-         "invariants": ["Agrees", "GroundClean", "ResetWord", "Complete", "Emit"], "ports": p}
-    d.update(kw)
-    return d
-
 PLANS["C03"] = {
     "props": ["C03"], "ops": ["feed"],
     "mc": [mcrec("graph", {"quick": 5, "thorough": 6}, True, ports({"chars": 1, "chars1": 3, "bytes": 4}, {"chars": 1, "chars1": 2, "bytes": 3})),
